@@ -235,7 +235,7 @@ class C38(Check):
             "in both the executable and a library; distinct by (exe mode, options, per-symbol kind/owner/users/alias)")
     assumptions = ["GNU ld 2.40 builds are the reference", "glibc's dynamic loader resolves by the ELF rules",
                    "gcc 12 code generation for -fno-pic/-fPIE/-fPIC"]
-    quick_cases = 160
+    quick_cases = 128
     thorough_cases = 5000
     case_timeout = 180
 
